@@ -78,7 +78,7 @@ theorem absent_eq [DecidableEq V] (W : World V) (o : Opts V) (f : PField V) (dat
 def isExcluded [DecidableEq V] (W : World V) (o : Opts V) (f : PField V) (data : List (Key × V)) : Bool :=
   match candidates W f data with
   | [] => false
-  | c :: _ => !noInput W o f c && (W.fp f.attname c).isNone
+  | c :: _ => !noInput W o f c && (convert W f c).isNone
               && decide (f.onError.getD o.invalidValues = .exclude) && !required o f
 
 /-- what the shared statements do for a field that was given: the whole contract, except that for a dropped
@@ -102,7 +102,7 @@ theorem provide_eq [DecidableEq V] (W : World V) (o : Opts V) (f : PField V) (da
   rw [hc, isNoInput_eq, isRequired_eq, getDefault_false_eq]
   cases hn : noInput W o f c
   · by_cases hcf : (o.ignoreAliasConflicts = false ∧ ∃ x, x ∈ rest ∧ ¬ x = c) <;>
-    cases hfp : W.fp f.attname c with
+    cases hfp : convert W f c with
     | some r => simp [hn, hfp, hcf]
     | none =>
       cases hoe : f.onError.getD o.invalidValues
@@ -156,7 +156,7 @@ theorem provided_eq [DecidableEq V] (W : World V) (o : Opts V) (f : PField V) (d
   | cons c rest =>
     simp only [List.isEmpty_cons, Bool.not_false, Bool.true_and]
     cases hn : noInput W o f c
-    · cases hfp : W.fp f.attname c with
+    · cases hfp : convert W f c with
       | some r => simp [hn, hfp]
       | none =>
         cases hoe : f.onError.getD o.invalidValues
